@@ -68,6 +68,9 @@ Expect(s, ev) ==
              ok |-> ev.panic = "" /\ ev.out = B32(exp) /\ ev.big = exp /\ BN!Lt(ev.out, Md(ev)) /\ okInv /\ okRaw,
              why |-> IF ev.out = B32(exp) /\ ~okRaw THEN "field " \o ev.field \o " " \o ev.fn \o ": non-canonical internal value"
                      ELSE "field " \o ev.field \o " " \o ev.fn \o ": value"]
+    [] ev.op = "fiat.nonzero" ->      \* the generated limb tests: non-zero iff some limb is non-zero
+         [st |-> s, ok |-> ev.panic = "" /\ ev.p_nz = ~BN!IsZero(ev.v) /\ ev.n_nz = ~BN!IsZero(ev.v),
+          why |-> "field nonzero test"]
     [] ev.op = "fiat.pred" ->
          [st |-> s,
           ok |-> /\ ev.panic = ""
